@@ -156,7 +156,7 @@ Section Enc.
   Proof. intros pre m ms H. unfold py_index. rewrite Nat2Z.id, H. apply nth_middle. Qed.
 
   (* the part of the body before the `if bit < len(bits) - 1`: the model's bit_of / narrow_cs / OR of the mask *)
-  Lemma step_common : forall gh s ch bit pos,
+  Lemma geq_coord_step : forall gh s ch bit pos,
     step (mk gh s ch bit pos) =
     let b := bit_of p s in
     let s' := narrow_cs b s in
@@ -179,7 +179,7 @@ Section Enc.
     step (mk gh s ch (Z.of_nat (length pre)) pos) =
     mk gh (narrow_cs (bit_of p s) s) (if bit_of p s then Z.lor ch m else ch) (Z.of_nat (S (length pre))) pos.
   Proof.
-    intros pre m ms gh s ch pos H Hms. rewrite step_common. cbv zeta. rewrite (index_middle _ _ _ H).
+    intros pre m ms gh s ch pos H Hms. rewrite geq_coord_step. cbv zeta. rewrite (index_middle _ _ _ H).
     assert (Hlt : (Z.of_nat (length pre) <? py_len (bits c) - 1) = true).
     { unfold py_len. rewrite H, app_length. cbn [length]. destruct ms; [congruence|]. cbn [length]. lia. }
     rewrite Hlt, Nat2Z.inj_succ. reflexivity.
@@ -190,7 +190,7 @@ Section Enc.
     step (mk gh s ch (Z.of_nat (length pre)) pos) =
     mk (gh ++ [char_at c (if bit_of p s then Z.lor ch m else ch)]) (narrow_cs (bit_of p s) s) 0 0 (pos + 1).
   Proof.
-    intros pre m gh s ch pos H. rewrite step_common. cbv zeta. rewrite (index_middle _ _ _ H).
+    intros pre m gh s ch pos H. rewrite geq_coord_step. cbv zeta. rewrite (index_middle _ _ _ H).
     assert (Hlt : (Z.of_nat (length pre) <? py_len (bits c) - 1) = false).
     { unfold py_len. rewrite H, app_length. cbn [length]. lia. }
     rewrite Hlt. reflexivity.
@@ -276,11 +276,23 @@ Proof.
   intros a b Hab. apply app_inv_head in Hab. congruence.
 Qed.
 
-(* ---- niemeyer_to_geobox (Coordinate(..) instantiated with the model's constructor, 180 -> -180 included: D12a) -------- *)
+(* ---- niemeyer_to_geobox: for EVERY Coordinate constructor the corners are (lon - err, lat + err), (lon + err, lat - err) of the
+   decoded cell; with the model's constructor (180 -> -180 included: D12a) that is the model's box ------------------------ *)
+Lemma geq_niemeyer_to_geobox_any : forall (mkc : Q -> Q -> Q * Q) s base,
+  g_niemeyer_to_geobox mkc s base =
+  match decode_niemeyer base s with
+  | Ok (x, y, ex, ey) => Ok (mkc (x - ex)%Q (y + ey)%Q, mkc (x + ex)%Q (y - ey)%Q)
+  | Err e => Err e
+  end.
+Proof.
+  intros mkc s base. unfold g_niemeyer_to_geobox. rewrite geq_decode_niemeyer.
+  destruct (decode_niemeyer base s) as [[[[x y] ex] ey]|e]; reflexivity.
+Qed.
+
 Lemma geq_niemeyer_to_geobox : forall s base, g_niemeyer_to_geobox coordinate s base = niemeyer_to_geobox base s.
 Proof.
-  intros s base. unfold g_niemeyer_to_geobox, niemeyer_to_geobox. rewrite geq_decode_niemeyer.
-  unfold decode_niemeyer, cell_box. destruct (GeohashM.cfg_of_base base) as [c|]; [|reflexivity].
+  intros s base. rewrite geq_niemeyer_to_geobox_any.
+  unfold decode_niemeyer, niemeyer_to_geobox, cell_box. destruct (GeohashM.cfg_of_base base) as [c|]; [|reflexivity].
   destruct (decode c s) as [[[[x y] ex] ey]|e]; reflexivity.
 Qed.
 
